@@ -9,10 +9,12 @@ Abstractions (all input-only):
 * a compiled expression tree is an `EL.E` (the model of the ANTLR parse tree, M5);
 * the reference comment `#: file:line:col` of an entry is an abstract occurrence id `Nat`, computed by a
   caller-supplied function `pos n i` = "position of the first token of argument `i` (1-based) of the `n`-th
-  call node (pre-order, 0-based) of the tree"; an entry built by a keyword with `MsgID = 0` carries NO reference
-  comment in the Go code, which is `cited = false` here;
+  call node (pre-order, 0-based) of the tree"; `cited` says whether the entry carries that reference comment:
+  `doExtract` only produces entries with `cited = true` (a keyword without msgid position, `MsgID < 1`, the only
+  case without reference comment, adds nothing since the fix of `doExtract`); the field is kept because `Save` is
+  modelled for arbitrary entry lists;
 * `strconv.ParseInt(_, 10, 64)` results are clamped to `Nat`: a negative position behaves exactly like `0`
-  in `doExtract`/`MaxArgIndex` (all uses are `i > 0` and `max … > count` with `count ≥ 1`);
+  in `doExtract`/`MaxArgIndex` (all uses are `i > 0`, `kw.MsgID < 1` and `max … > count` with `count ≥ 1`);
 * string literals are decoded with `EV.decodeStr` (the evaluator's decoder, of which `unquote` is a copy);
   `unquote` drops the error of `strconv.Unquote` and returns `""`; `EV.Dec.unsupported` (escapes that build
   invalid UTF-8 — outside the evaluator model as well) is mapped to `""` too. -/
@@ -144,7 +146,7 @@ structure Entry where
   id : String
   plural : String
   occ : Nat            -- the `#: file:line:col` reference (abstract); meaningful iff `cited`
-  cited : Bool := true -- false: the entry has no reference comment (keyword with `MsgID = 0`)
+  cited : Bool := true -- false: the entry has no reference comment (never produced by `doExtract`)
 deriving Repr, DecidableEq, Inhabited
 
 /-- the reference comments of one freshly extracted entry (`entry.MsgCmts`) -/
@@ -163,13 +165,16 @@ def litAt? (args : List E) (i : Nat) : Option String :=
   | some a => strLit a
   | none => none
 
-/-- `doExtract` for one keyword on a call `fn(args)`; `occ i` = reference of the argument at position `i` -/
+/-- `doExtract` for one keyword on a call `fn(args)`; `occ i` = reference of the argument at position `i`.
+    Nothing is added for another function name, with too few arguments (`maxArgs > count`), for a keyword without
+    msgid position (`kw.MsgID < 1`, e.g. `-keywords T:0`), for a msgid argument that is not a string literal, and
+    for an empty msgid without context -/
 def doExtract (kw : Keyword) (fn : String) (args : List E) (occ : Nat → Nat) : List Entry :=
   if kw.name ≠ fn then [] else
   if kw.maxArg > args.length then [] else
+  if kw.id = 0 then [] else
   let ctx := litAt args kw.ctx
   let plural := litAt args kw.plural
-  if kw.id = 0 then [⟨ctx, "", plural, 0, false⟩] else
   match litAt? args kw.id with
   | none => []
   | some s => if s = "" ∧ ctx = "" then [] else [⟨ctx, s, plural, occ kw.id, true⟩]
